@@ -215,6 +215,13 @@ func (H) Generate(rng *simrt.Rand, prop, tier string) (any, simrt.Config) {
 	if prop == "C14" {
 		// make sure a single-target stream subscriber watches a target that gets removed
 		sc.Subs[0].Mode, sc.Subs[0].Target, sc.Subs[0].Delay = "stream", u.Targets[0], rng.Intn(5)
+		// and an all-targets stream subscriber that attaches while targets come and go
+		if len(sc.Subs) < 2 {
+			sc.Subs = append(sc.Subs, genSub(rng, u, prop))
+		}
+		sc.Subs[1].Mode, sc.Subs[1].Target, sc.Subs[1].Delay = "stream", "*", rng.Intn(300)
+		sc.Subs[1].Paths = []SubPath{{Elems: []gen.Elem{{N: "*"}}}}
+		sc.Subs[1].Origin, sc.Subs[1].Prefix, sc.Subs[1].UpdatesOnly = "", nil, false
 	}
 	if prop == "C07" || rng.Chance(0.15) {
 		sc.ACL = map[string][]string{}
@@ -1385,6 +1392,10 @@ func (w *world) judgeStream(x *common.Exec, sr *subRec, pats [][]string, syncs [
 			}
 			want, ok := cacheLeaves[k]
 			if !ok {
+				if _, known := final[tg]; !known {
+					// the whole target is gone from the cache, the subscriber still shows it
+					x.Violate("C14/removed-target-still-in-subscriber-view", "target %s is unknown to the cache (removed), but replaying the responses of a subscriber that is in sync still gives %s=%s: the whole-target delete did not cover it\n%s  writers:\n%s", tg, gen.Show(k), content, describe(sr), w.history())
+				}
 				x.Violate("C04/replay-extra-leaf", "target %s leaf %s=%s is in the replay of the subscriber's responses but not in the cache (a delete was not delivered)\n%s  writers:\n%s", tg, gen.Show(k), content, describe(sr), w.history())
 				return
 			}
